@@ -424,4 +424,11 @@ def rm_no_process_lifetime_results(ctx: Ctx) -> None:
     state_rule(ctx)
 
 
-RULES = [r1_builtin_maps, r2_mirror_construction, r3_argument_binding, r4_rejection, r5_formula_normal_form, r6_user_bus_is_per_resolver, rb_binding_agreement, rm_no_process_lifetime_results]
+def ru_names_bound(ctx: Ctx) -> None:
+    """a local read but never bound raises NameError for every input that reaches the statement (shared rule, names.py)"""
+    from ..names import names_rule
+
+    names_rule(ctx)
+
+
+RULES = [r1_builtin_maps, r2_mirror_construction, r3_argument_binding, r4_rejection, r5_formula_normal_form, r6_user_bus_is_per_resolver, rb_binding_agreement, rm_no_process_lifetime_results, ru_names_bound]
